@@ -678,4 +678,235 @@ theorem endOfStep_tick (c : Cfg) (r : StepEnd) (h : InvS c) (hq : Hq c) (h2 : In
     (prepare_target c r hr)
   exact ⟨finally_invS _ d.1, finally_hq _ d.2, endOfStep_inv2 c r h2, finally_interrupt _, finally_stepping _⟩
 
+/-! ### the body of a step and the loop -/
+
+theorem tick_inv10 {c : Cfg} (h : Tick c) : Inv10 c :=
+  ⟨h.s, IA.of_none h.int, fun _ => h.int, fun _ => h.stp⟩
+
+theorem cmdToState_tr (c : Cfg) (cmd : Cmd) : TR c (cmdToState c cmd).1 := by
+  unfold cmdToState; split
+  · exact TR.rfl' c
+  · exact ⟨rfl, rfl, rfl, rfl, rfl, MonoW.append _ _, MonoP.rfl' _⟩
+  · exact ⟨rfl, rfl, rfl, rfl, rfl, MonoW.append _ _, MonoP.rfl' _⟩
+  · exact TR.rfl' c
+  · exact TR.rfl' c
+
+theorem cmdToState_target (c : Cfg) (cmd : Cmd) : TargetOk (cmdToState c cmd).1 (cmdToState c cmd).2 := by
+  unfold cmdToState; split
+  · exact targetOk_running ..
+  · refine ⟨by simp [SObj.label], ?_⟩
+    intro fn' wf wk aw h; cases h; simp
+  · refine ⟨by simp [SObj.label], ?_⟩
+    intro fn' wf wk aw h; cases h; simp
+  · exact ⟨by simp [SObj.label], by intro _ _ _ _ h; cases h⟩
+  · exact targetOk_killed _
+
+theorem finishUser_tick (c : Cfg) (o : Outcome) (h : InvS c) (hq : Hq c) (h2 : Inv2 c) (hia : IA c)
+    (hqi : (∃ pf, c.pc = .awaitPaused pf) → c.interrupt = none) : Tick (finishUser c o) := by
+  unfold finishUser
+  split
+  · rename_i cmd
+    show Tick (endOfStep (cmdToState c cmd).1 (.next (some (cmdToState c cmd).2)))
+    have r := cmdToState_tr c cmd
+    have hs : StW c (cmdToState c cmd).1 := Or.inl (cmdToState_fields c cmd).2
+    apply endOfStep_tick _ _ (h.tr r hs) (hq.tr r) (h2.same2 (cmdToState_same2 ..)) (hia.of_eq r.interrupt r.actions)
+    · intro ⟨pf, hpf⟩; rw [r.interrupt]; rw [r.pc] at hpf; exact hqi ⟨pf, hpf⟩
+    · intro s hs; cases hs; exact cmdToState_target c cmd
+  · exact endOfStep_tick c _ h hq h2 hia hqi (by intro s hs; cases hs; exact targetOk_excepted ..)
+
+/-- `Waiting.execute` after an interruption: the same state object waits on a fresh future (a parked wake-up is delivered) -/
+def rearm (c : Cfg) (wf : Nat) : Cfg :=
+  match c.st with
+  | .waiting f wf' wakeup aw =>
+      if wf' = wf then
+        let nw : WF := match wakeup with | some o => o | none => .pending
+        { c with st := .waiting f c.wfs.length none aw, wfs := c.wfs ++ [nw] }
+      else c
+  | _ => c
+
+theorem rearm_tr (c : Cfg) (wf : Nat) : TR c (rearm c wf) := by
+  unfold rearm; split
+  · split
+    · exact ⟨rfl, rfl, rfl, rfl, rfl, MonoW.append _ _, MonoP.rfl' _⟩
+    · exact TR.rfl' c
+  · exact TR.rfl' c
+
+theorem rearm_inv2 (c : Cfg) (wf : Nat) (h : Inv2 c) : Inv2 (rearm c wf) := by
+  unfold rearm; split
+  · rename_i f wf' wakeup aw hst
+    split
+    · exact h.same2 ⟨by simp [hst, SObj.label], by simp [hst, outcomeOf], rfl, rfl, rfl, rfl⟩
+    · exact h
+  · exact h
+
+theorem rearm_invS (c : Cfg) (wf : Nat) (h : InvS c) (k : Nat) (hw : c.wfs[wf]? = some (.interrupted k)) :
+    InvS (rearm c wf) := by
+  unfold rearm; split
+  · rename_i f wf' wakeup aw hst
+    split
+    · rename_i heq
+      subst heq
+      refine ⟨h.nocrash, ?_, h.ap, h.pv, ?_, ?_⟩
+      · intro j hp
+        have hj := h.aw j hp
+        refine ⟨Nat.lt_of_lt_of_le hj.1 (MonoW.append _ _).1, Or.inr ?_⟩
+        rcases hj.2 with ⟨fn, wk, aw', hst'⟩ | hn
+        · rw [hst] at hst'; cases hst'
+          show (c.wfs ++ [_])[wf']? ≠ some WF.pending
+          rw [List.getElem?_append_left hj.1, hw]; intro h'; cases h'
+        · exact (MonoW.append _ _).nonpending hj.1 hn
+      · intro fn' wf2 wk' aw' hst'
+        cases hst'
+        show c.wfs.length < (c.wfs ++ [_]).length
+        simp
+      · intro pf _ ht
+        simp [SObj.label, terminal, allowed] at ht
+    · exact h
+  · exact h
+
+theorem wake_tick (c : Cfg) (fn wf : Nat) (w : WF) (h : InvS c) (hq : Hq c) (h2 : Inv2 c) (hia : IA c)
+    (hqi : (∃ pf, c.pc = .awaitPaused pf) → c.interrupt = none)
+    (hw : c.wfs[wf]? = some w) (hne : w ≠ .pending) : Tick (wake c fn wf w) := by
+  unfold wake
+  split
+  · exact endOfStep_tick c _ h hq h2 hia hqi (by intro s hs; cases hs; exact targetOk_running ..)
+  · rename_i cookie
+    show Tick (endOfStep (rearm c wf) (.interruption cookie))
+    have r := rearm_tr c wf
+    apply endOfStep_tick _ _ (rearm_invS c wf h cookie hw) (hq.tr r) (rearm_inv2 c wf h2) (hia.of_eq r.interrupt r.actions)
+    · intro ⟨pf, hpf⟩; rw [r.interrupt]; rw [r.pc] at hpf; exact hqi ⟨pf, hpf⟩
+    · intro s hs; cases hs
+  · exact endOfStep_tick c _ h hq h2 hia hqi (by intro s hs; cases hs)
+  · exact absurd rfl hne
+
+theorem stepBodyK_inv10 (P : Prog) (k : Cfg → Cfg) (hk : ∀ d, Tick d → Inv10 (k d)) (c : Cfg) (h : Tick c) :
+    Inv10 (stepBodyK P k c) := by
+  obtain ⟨hs, hq, h2, hint, hstp⟩ := h
+  have hs1 : InvS { c with stepping := true } := ⟨hs.nocrash, hs.aw, hs.ap, hs.pv, hs.wv, hs.tp⟩
+  have hq1 : Hq { c with stepping := true } := hq
+  have h21 : Inv2 { c with stepping := true } := h2.same2 ⟨rfl, rfl, rfl, rfl, rfl, rfl⟩
+  have hia1 : IA { c with stepping := true } := IA.of_none hint
+  have hqi1 : (∃ pf, ({ c with stepping := true } : Cfg).pc = .awaitPaused pf) → ({ c with stepping := true } : Cfg).interrupt = none :=
+    fun _ => hint
+  unfold stepBodyK
+  dsimp only
+  split
+  · exact hk _ (endOfStep_tick _ _ hs1 hq1 h21 hia1 hqi1 (by intro s hs; cases hs; exact targetOk_running ..))
+  · rename_i fn args kw hst
+    split
+    · exact hk _ (finishUser_tick _ _ ⟨hs.nocrash, hs.aw, hs.ap, hs.pv, hs.wv, hs.tp⟩ hq
+        (h2.same2 ⟨rfl, rfl, rfl, rfl, rfl, rfl⟩) (IA.of_none hint) (fun _ => hint))
+    · refine ⟨⟨?_, ?_, ?_, hs.pv, hs.wv, ?_⟩, IA.of_none hint, ?_, ?_⟩
+      · intro e h; cases h
+      · intro wf h; cases h
+      · intro pf h; cases h
+      · intro pf h; cases h
+      · intro hq; rcases hq with h | ⟨pf, h⟩ <;> cases h
+      · intro hq; rcases hq with h | ⟨pf, h⟩ <;> cases h
+  · rename_i fn wf wk aw hst
+    split
+    · rename_i hp
+      refine ⟨⟨?_, ?_, ?_, hs.pv, hs.wv, ?_⟩, IA.of_none hint, ?_, ?_⟩
+      · intro e h; cases h
+      · intro j hj; cases hj
+        exact ⟨(List.getElem?_eq_some_iff.mp hp).1, Or.inl ⟨fn, wk, aw, hst⟩⟩
+      · intro pf h; cases h
+      · intro pf h; cases h
+      · intro hq; rcases hq with h | ⟨pf, h⟩ <;> cases h
+      · intro hq; rcases hq with h | ⟨pf, h⟩ <;> cases h
+    · rename_i w hnp hw
+      have hne : w ≠ .pending := by intro h; exact hnp h
+      exact hk _ (wake_tick _ fn wf w hs1 hq1 h21 hia1 hqi1 hw hne)
+    · rename_i hnone
+      exfalso
+      have hlt := hs.wv _ _ _ _ hst
+      rw [List.getElem?_eq_getElem hlt] at hnone; cases hnone
+  · exact hk _ (endOfStep_tick _ _ hs1 hq1 h21 hia1 hqi1 (by intro s hs; cases hs))
+
+theorem loopHead_inv10 (P : Prog) : ∀ (fuel : Nat) (c : Cfg), Tick c → Inv10 (loopHead P fuel c) := by
+  intro fuel
+  induction fuel with
+  | zero => intro c h; simpa [loopHead] using tick_inv10 h
+  | succ n ih =>
+    intro c h
+    have hb := stepBodyK_inv10 P (loopHead P n) ih c h
+    unfold loopHead
+    split
+    · exact tick_inv10 h
+    · split
+      · -- the process has terminated: the loop ends
+        refine ⟨⟨?_, ?_, ?_, h.s.pv, h.s.wv, ?_⟩, IA.of_none h.int, fun _ => h.int, fun _ => h.stp⟩
+        · intro e h; cases h
+        · intro wf h; cases h
+        · intro pf h; cases h
+        · intro pf h; cases h
+      · rename_i hl
+        have hl' : terminal c.st.label = false := by simpa using hl
+        split
+        · -- a live process is never closed
+          rename_i hcl
+          rw [(h.i2.live hl').2.1] at hcl; cases hcl
+        · split
+          · rename_i pf hpa
+            split
+            · refine ⟨⟨?_, ?_, ?_, h.s.pv, h.s.wv, ?_⟩, IA.of_none h.int, fun _ => h.int, fun _ => h.stp⟩
+              · intro e h; cases h
+              · intro wf h; cases h
+              · intro pf' hp; cases hp
+                exact ⟨h.s.pv pf hpa, Or.inl hpa⟩
+              · intro pf' _ ht
+                have ht' : terminal c.st.label = true := ht
+                rw [hl'] at ht'; cases ht'
+            · exact hb
+          · exact hb
+
+theorem tickStepper_inv10 (P : Prog) (c : Cfg) (h : Inv10 c) (h2 : Inv2 c) : Inv10 (tickStepper P c) := by
+  unfold tickStepper
+  split
+  · rename_i hpc
+    exact loopHead_inv10 P _ c ⟨h.s, (by intro pf hp; rw [hpc] at hp; cases hp), h2, h.qi (Or.inl hpc), h.qs (Or.inl hpc)⟩
+  · rename_i pf hpc
+    split
+    · rename_i htrue
+      have tk : Tick c := ⟨h.s, (by intro pf' hp; rw [hpc] at hp; cases hp; exact htrue), h2,
+        h.qi (Or.inr ⟨pf, hpc⟩), h.qs (Or.inr ⟨pf, hpc⟩)⟩
+      have hb : Inv10 (stepBody P fuel0 c) := stepBodyK_inv10 P _ (loopHead_inv10 P fuel0) c tk
+      split
+      · rename_i pf' hpa
+        split
+        · refine ⟨⟨?_, ?_, ?_, h.s.pv, h.s.wv, ?_⟩, h.ia, fun _ => h.qi (Or.inr ⟨pf, hpc⟩), fun _ => h.qs (Or.inr ⟨pf, hpc⟩)⟩
+          · intro e h; cases h
+          · intro wf h; cases h
+          · intro p hp; cases hp
+            exact ⟨h.s.pv pf' hpa, Or.inl hpa⟩
+          · intro p _
+            exact h.s.tp pf hpc
+        · exact hb
+      · exact hb
+    · exact h
+  · rename_i b hpc
+    have hqv : Hq c := by intro pf hp; rw [hpc] at hp; cases hp
+    have hqiv : (∃ pf, c.pc = .awaitPaused pf) → c.interrupt = none := by
+      intro ⟨pf, hp⟩; rw [hpc] at hp; cases hp
+    split
+    · exact loopHead_inv10 P _ _ (finishUser_tick c b.out h.s hqv h2 h.ia hqiv)
+    · refine ⟨⟨?_, ?_, ?_, h.s.pv, h.s.wv, ?_⟩, h.ia, ?_, ?_⟩
+      · intro e h; cases h
+      · intro wf h; cases h
+      · intro pf h; cases h
+      · intro pf h; cases h
+      · intro hq; rcases hq with h | ⟨pf, h⟩ <;> cases h
+      · intro hq; rcases hq with h | ⟨pf, h⟩ <;> cases h
+  · rename_i wf hpc
+    have hqv : Hq c := by intro pf hp; rw [hpc] at hp; cases hp
+    have hqiv : (∃ pf, c.pc = .awaitPaused pf) → c.interrupt = none := by
+      intro ⟨pf, hp⟩; rw [hpc] at hp; cases hp
+    split
+    · exact h
+    · rename_i w hnp hw
+      have hne : w ≠ .pending := by intro h; exact hnp h
+      exact loopHead_inv10 P _ _ (wake_tick c _ wf w h.s hqv h2 h.ia hqiv hw hne)
+    · exact h
+  · exact h
+
 end PMF
